@@ -30,7 +30,7 @@ NA = {
  'C15': 'type traits / concepts / numeric_limits / ratio are compile-time constants and types: there is no executable code to encode and the quantifier ranges over C++ types, which an SMT variable cannot (DESIGN.md section 3)',
 }
 # properties whose quick check has been run by the lead on the current tree and exits 0 (set grows during integration)
-READY = {'C08'}
+READY = {'C08', 'C11'}
 PENDING = 'check under construction in this session; not claimed until its harness family is committed'
 
 def main():
